@@ -127,6 +127,7 @@ func TestDumpRegress(t *testing.T) {
 	write("C19", "fixed-3d93c4e-utf8-string", CLICase{Kind: "prog", Src: "\tDB \"caf\u00e9\",1\n\tDB \"\u65e5\u672c\"\n"}, "a UTF-8 string literal was re-read as Shift_JIS by the command: DB \"é\" gave EF BE 83 EF BD A9")
 	write("C11", "fixed-055f81f-forward-minus", EquCase{Mode: 16, Defs: []EquDef{{Name: "qa", Body: "1", Val: 1, Dep: 1}, {Name: "qb", Body: "2", Val: 2, Dep: 1}, {Name: "qx", Body: "10-qa-qb", Val: 7, Dep: 2}}, Perm: []int{2, 0, 1}, Stmts: []string{"MOV AX,qx", "DB qx+1"}, Sites: []string{"imm16", "db"}}, "10-a-b with a and b defined further down evaluated to 9: the minus of the first unfoldable term was dropped")
 	write("C11", "fixed-c80ff9a-register-alias", EquCase{Mode: 16, Defs: []EquDef{{Name: "qa", Body: "2", Val: 2, Dep: 1}, {Name: "qreg", Body: "BX", Dep: 1}}, Stmts: []string{"MOV AX,[qreg+SI]", "MOV CL,[qreg]", "MOV AX,[qreg+qa]", "ADD qreg,qa"}, Sites: []string{"regalias", "regalias", "regalias", "regalias"}}, "a name standing for a register was refused in [R+SI] and [R]")
+	write("C13", "fixed-58bcad3-equ-stored-doubling", CrashCase{Src: scaledInput("equmuldouble", 7500), Kind: "scale", Family: "equmuldouble"}, "30 definitions that each double the stored expression: exponential time and memory")
 	// ---- C04
 	write("C04", "seeded-C04-2-chain", BranchCase{Mode: 16, Org: -1, Kind: "chain", Trailing: true, Chain: []string{"JMP", "JE"}, Gaps: []int{123, 2}}, "widening the inner branch pushes the outer one over rel8 (needs two re-assembly rounds)")
 	write("C04", "seeded-C04-2-chain3", BranchCase{Mode: 16, Org: 0x7c00, Kind: "chain", Trailing: true, Chain: []string{"JC", "JMP", "JNZ"}, Gaps: []int{121, 1, 1}}, "three nested branches on the rel8 boundary")
